@@ -79,6 +79,9 @@ def resolve(v, depth=0):
         args = tuple(resolve(x, depth + 1) for x in v[4])
         if common.is_try_branch(v[3]) and args and args[0][0] == "agg" and str(args[0][2]).endswith("Result::Ok"):
             return ("agg", "adt", "std::ops::ControlFlow::Continue", args[0][3])
+        ev = _eval_on_variants(v[3], args)
+        if ev is not None:
+            return resolve(ev, depth + 1)
         return ("call", v[1], v[2], v[3], args)
     if k == "phi":
         return phi([resolve(x, depth + 1) for x in v[1]])
@@ -91,6 +94,33 @@ def resolve(v, depth=0):
     if k == "mut":
         return ("mut", resolve(v[1], depth + 1)) + tuple(v[2:])
     return v
+
+
+def _eval_on_variants(callee, args):
+    """A small pure workspace function applied to literal payload-free enum variants (`Position::First.index()`,
+    `Position::First.other()`): the value of the one exit whose conditions — all of them tests of a parameter's variant —
+    hold for these arguments.  None when the callee is not such a function or the exit is not unique."""
+    P = common.CURRENT_P[0]
+    if P is None or not args or not all(a[0] == "agg" and a[1] == "adt" and not a[3] and isinstance(a[2], str) for a in args):
+        return None
+    g = P.fn(callee) or P.fn(generic_path(callee))
+    if g is None or g.body is None or g.derived or g.body.back_edges() or len(g.body.blocks) > 24 or \
+            g.crate not in ("halo_pair", "halo_factory", "halo_router", "haloswap") or not common._effect_free(P, g, 0):
+        return None
+    names = [str(a[2]).rsplit("::", 1)[-1] for a in args]
+    hits = []
+    for (b, i, cls, rv) in common.exit_sites(P, g):
+        ok = True
+        for c in common.control_conditions(P, g, b, expand_helpers=False):
+            cd = c["cond"]
+            if cd[0] == "discr" and cd[1][0] == "param" and cd[1][1] == g.path and cd[1][2] < len(names):
+                if names[cd[1][2]] not in c["allowed"]:
+                    ok = False
+            else:
+                return None          # a condition on something else than the parameters' variants
+        if ok:
+            hits.append(rv)
+    return hits[0] if len(hits) == 1 else None
 
 
 def fold_indices(v, depth=0):
